@@ -187,6 +187,12 @@ func raExec(r *Run, line string) {
 				r.Emit(line, "adapt err retry")
 			case errors.Is(err, flows.ErrComplete):
 				r.Emit(line, "adapt err complete")
+				if m == 0 || p.FromBlock <= m {
+					// legitimate only when the permitted prefix holds nothing to certify
+					if wb, wc := raFilterIDs(p, p.FromBlock, m); m == 0 || wb != "-" || wc != "-" {
+						r.Fail(fmt.Sprintf("AdaptCertificate(max=%d) declared the chain complete for [%d,%d] although its first block is permitted and the permitted blocks hold b=%s c=%s: these events never reach a certificate", m, p.FromBlock, p.ToBlock, wb, wc), []string{line})
+					}
+				}
 			default:
 				r.Emit(line, "adapt err other")
 			}
